@@ -55,45 +55,26 @@ ghost == <<commits, inW, durable>>
 vars  == <<ctl, fs, txv, ghost>>
 
 PC(pt, f, cf, k) == [pt |-> pt, f |-> f, cf |-> cf, k |-> k]
+Op(p) == prog[p][ip[p]]
 
 -----------------------------------------------------------------------------
 (* Where does p go when its current operation is over?                      *)
 
-\* the set of possible first program counters of operation number i of program pg, with the tables hs
-\* held and mk created
-RECURSIVE StartOfP(_, _, _, _)
+\* the set of possible program counters when operation number i of program pg is about to start, with
+\* the tables hs held and mk created.  Every statement starts at the point stmt.begin (top of
+\* Processor.ExecuteStatement); after the last one the deferred rollback releases what is held.
 StartOfP(pg, i, hs, mk) ==
   IF i > Len(pg)
     THEN IF hs \cup mk # {}
-           THEN {PC("close.data_fd", f, "", "end") : f \in hs \cup mk}      \* deferred rollback + release
+           THEN {PC("close.data_fd", f, "", "end") : f \in hs \cup mk}
            ELSE {PC("done", NoFile, "", "")}
-    ELSE LET o == pg[i] IN
-      CASE o.op = "read"   -> IF o.f \in hs \cup mk THEN StartOfP(pg, i + 1, hs, mk)    \* cached: no file access
-                              ELSE {PC("read.stat", o.f, "", "")}
-        [] o.op = "update" -> IF o.f \in hs \cup mk THEN StartOfP(pg, i + 1, hs, mk)
-                              ELSE {PC("update.stat", o.f, "", "")}
-        [] o.op = "create" -> IF o.f \in hs \cup mk THEN {PC("done", NoFile, "", "")}   \* statement error (not generated)
-                              ELSE {PC("create.stat", o.f, "", "")}
-        [] o.op = "commit" -> IF mk # {} THEN {PC("commit.data_fd", f, "", "c") : f \in mk}
-                              ELSE IF hs # {} THEN {PC("commit.data_fd", f, "", "c") : f \in hs}
-                              ELSE StartOfP(pg, i + 1, hs, mk)
-        [] o.op = "rollback" -> IF hs \cup mk = {} THEN StartOfP(pg, i + 1, hs, mk)
-                              ELSE {PC("close.data_fd", f, "", "rb") : f \in hs \cup mk}
+    ELSE {PC("stmt.begin", NoFile, "", "")}
 StartOf(p, i, hs, mk) == StartOfP(prog[p], i, hs, mk)
-
-\* index of the operation that StartOf(p, i, ..) actually starts (skipping the cached ones)
-RECURSIVE StartIdx(_, _, _, _)
-StartIdx(p, i, hs, mk) ==
-  IF i > Len(prog[p]) THEN i
-  ELSE LET o == prog[p][i] IN
-    IF (o.op \in {"read", "update"} /\ o.f \in hs \cup mk) \/ (o.op \in {"commit", "rollback"} /\ hs \cup mk = {})
-      THEN StartIdx(p, i + 1, hs, mk)
-      ELSE i
 
 \* operation finished normally: go to the next one
 OpDone(p, hs, mk) ==
   /\ \E n \in StartOf(p, ip[p] + 1, hs, mk) : pc' = [pc EXCEPT ![p] = n]
-  /\ ip' = [ip EXCEPT ![p] = StartIdx(p, ip[p] + 1, hs, mk)]
+  /\ ip' = [ip EXCEPT ![p] = @ + 1]
   /\ UNCHANGED <<prog, retries, outcome>>
 
 \* operation failed: the statement list ends, the deferred rollback releases everything
@@ -109,6 +90,28 @@ Goto(p, pt, f, cf, k) ==
 
 \* a failed attempt: back to the retry loop of CreateControlFileContext
 Wait(p, f, k) == Goto(p, "wait.retry", f, "", k)
+
+-----------------------------------------------------------------------------
+(* A statement starts.  A table that is already held/created by this        *)
+(* transaction is served from the cache (no file access); otherwise the     *)
+(* path is searched first (SearchFilePath: "file does not exist").          *)
+
+StmtBegin(p) == LET o == Op(p)  hs == held[p]  mk == made[p] IN
+  /\ pc[p].pt = "stmt.begin"
+  /\ CASE o.op \in {"read", "update"} ->
+            IF o.f \in hs \cup mk THEN OpDone(p, hs, mk)
+            ELSE IF ~data[o.f].exists THEN OpFail(p, "notexist")
+            ELSE Goto(p, IF o.op = "read" THEN "read.stat" ELSE "update.stat", o.f, "", "")
+       [] o.op = "create" ->
+            IF o.f \in hs \cup mk THEN OpFail(p, "exists") ELSE Goto(p, "create.stat", o.f, "", "")
+       [] o.op = "commit" ->
+            IF mk # {} THEN \E f \in mk : Goto(p, "commit.data_fd", f, "", "c")
+            ELSE IF hs # {} THEN \E f \in hs : Goto(p, "commit.data_fd", f, "", "c")
+            ELSE OpDone(p, hs, mk)
+       [] o.op = "rollback" ->
+            IF hs \cup mk = {} THEN OpDone(p, hs, mk)
+            ELSE \E f \in hs \cup mk : Goto(p, "close.data_fd", f, "", "rb")
+  /\ UNCHANGED <<fs, txv, ghost>>
 
 -----------------------------------------------------------------------------
 (* Acquisition for read: NewHandlerForRead -> TryCreateRLockFile            *)
@@ -393,6 +396,7 @@ Crash(p) ==
   /\ UNCHANGED <<prog, ip, retries, data, lockf, rlockf, tempf, txv, ghost>>
 
 Step(p) ==
+  \/ StmtBegin(p)
   \/ ReadStat(p) \/ RLockStatLock(p) \/ RLockCreateLock(p) \/ RLockCreateRLock(p) \/ ReadOpen(p)
   \/ UpdateStat(p) \/ LockCheck(p) \/ LockCreateLock(p) \/ LockRecheck(p) \/ UpdateOpen(p) \/ TempCreate(p)
   \/ LoadDone(p) \/ CreateStat(p) \/ CreateFile(p) \/ CweRemoveCreated(p)
@@ -486,6 +490,9 @@ QuiescentClean ==
      \A f \in Files : lockf[f] = NoProc /\ rlockf[f] = {} /\ tempf[f] = NoProc /\ flockEx[f] = NoProc /\ flockSh[f] = {}
 
 \* compact projection of the directory, as the harness observes it
+\* (a created table is an empty file (ver -3) until Transaction.Commit encodes it, which happens
+\* before the first Handler.commit of that COMMIT)
 DirOf(f) == [lock |-> lockf[f] # NoProc, nrlock |-> Cardinality(rlockf[f]), temp |-> tempf[f] # NoProc,
-             exists |-> data[f].exists, ver |-> IF data[f].exists THEN data[f].ver ELSE -1]
+             exists |-> data[f].exists,
+             ver |-> IF ~data[f].exists THEN -1 ELSE IF \E p \in Procs : f \in made[p] /\ pc[p].k # "c" THEN -3 ELSE data[f].ver]
 =============================================================================
